@@ -13,6 +13,7 @@ void h_ctor(void)
 {
     /* the constructor chain of this leaf class gives the round count of the library variant */
     __CPROVER_assert(s == sched && r == V128_ROUNDS(VERIF_ARD_KEYLEN, A128_TWEAKPTR) && sizeof(sched) == 8u * r, "C19 constructor: schedule pointer, rounds, size");
+    __CPROVER_assert(LEAF(__keySize)() == VERIF_ARD_KEYLEN && Skinny128__blockSize() == 16, "C19 constructor: reported key and block size of the variant");
     VCANARY();
 }
 void h_encryptBlock(void) { uint8_t *o; const uint8_t *i; VERIF_ARD_HAVOC_MEMBERS(); Skinny128__encryptBlock(o, i); VCANARY(); }
